@@ -197,8 +197,8 @@ mod imp {
     }
 
     extern "C" {
-        pub fn verif_tramp_sysv(f: *const c_void, args: *const u64, out: *mut u64);
-        pub fn verif_tramp_win64(f: *const c_void, args: *const u64, out: *mut u64);
+        pub fn verif_tramp_sysv(f: *const c_void, args: *const u64, out: *mut u64, pad: u64);
+        pub fn verif_tramp_win64(f: *const c_void, args: *const u64, out: *mut u64, pad: u64);
     }
 
     #[derive(Clone, Copy, PartialEq, Eq, Debug)]
